@@ -741,7 +741,7 @@ def gen_aux_framer(rng, tagc, alloc, level, full=False):
     return {"sched": "aux", "first": None, "frames": frames}
 
 
-def gen_susp(rng, full=False):
+def gen_susp(rng, full=False, share=0.04):
     """programs centred on conditional auxiliaries at several depths, transitions out of suspended outlines,
     stop/abort bids at arbitrary ticks; .v0 is a tick counter driven by a clock framer"""
     tagc = [0]
@@ -749,7 +749,7 @@ def gen_susp(rng, full=False):
     clock = 0
     mains = list(range(1, 1 + nmain))
     framers = [None] * (1 + nmain)
-    share = 0.04                         # probability that a clause reuses an auxiliary of another clause
+    # share: probability that a clause reuses an auxiliary of another clause (any level, any framer)
 
     def alloc(level):
         """index of the auxiliary framer for a new `aux` clause"""
@@ -797,7 +797,7 @@ def gen_susp(rng, full=False):
             r = rng.random()
             if r < 0.55:                     # conditional aux(es)
                 for _ in range(1 if rng.random() < 0.8 else 2):
-                    nds = [_clock_need(rng)]
+                    nds = [_clock_need(rng, 1, 4) if rng.random() < 0.4 else _clock_need(rng)]
                     if rng.random() < 0.2:
                         nds.append({"k": "cd", "sh": rng.choice([1, 2]), "op": rng.choice(["<", ">=", "=="]), "v": rng.randrange(3)})
                     a = alloc(0)
@@ -815,9 +815,10 @@ def gen_susp(rng, full=False):
                 its.append({"t": "go", "far": far, "needs": nds})
             if j + 1 < n and rng.random() < 0.1:
                 its.append({"t": "timeout", "v": rng.choice([8, 16, 24, 32])})
-            if rng.random() < 0.1:
-                its.append({"t": "let", "needs": [_clock_need(rng)]})
-            if rng.random() < 0.1:
+            if rng.random() < 0.1:               # a guard that is open at the start and closes later, or the reverse
+                its.append({"t": "let", "needs": [{"k": "cd", "sh": 0, "op": "<", "v": rng.randrange(2, 8)}
+                                                  if rng.random() < 0.6 else _clock_need(rng)]})
+            if rng.random() < 0.05:
                 its.append({"t": "act", "ctx": rng.choice(["enter", "recur", "exit"]),
                             "act": {"k": "bid", "ctl": rng.choice(["stop", "abort"]), "targets": ["me"]}})
             if rng.random() < 0.25:
@@ -883,6 +884,11 @@ def gen_guards(rng):
         framers.append(None)
     naux_cap = 5
 
+    def reuse():
+        """a completed auxiliary of any level, named by some clause already"""
+        done = [k for k in range(1 + nmain, len(framers)) if framers[k] is not None]
+        return rng.choice(done) if done else None
+
     def new_aux(level):
         if len(framers) >= 1 + nmain + naux_cap:
             return None
@@ -901,7 +907,7 @@ def gen_guards(rng):
         if rng.random() < 0.5:
             frames[-1]["items"].append({"t": "act", "ctx": rng.choice(["enter", "recur"]), "act": {"k": "done"}})
         if level < 1 and rng.random() < 0.3:
-            a = new_aux(level + 1)
+            a = reuse() if rng.random() < 0.3 else new_aux(level + 1)
             if a is not None:
                 frames[0]["items"].append({"t": "aux", "aux": a, "needs": [] if rng.random() < 0.6 else [guard()]})
         for f in frames:
@@ -938,6 +944,10 @@ def gen_guards(rng):
                         shared = a
             elif shared is not None and rng.random() < 0.35:
                 its.append({"t": "aux", "aux": shared, "needs": []})       # original aux reachable from two frames
+            elif rng.random() < 0.15:
+                a = reuse()                                                # … or an auxiliary of an auxiliary
+                if a is not None:
+                    its.append({"t": "aux", "aux": a, "needs": []})
             if rng.random() < 0.25:
                 a = new_aux(0)
                 if a is not None:
@@ -947,6 +957,16 @@ def gen_guards(rng):
             if rng.random() < 0.06:
                 its.append({"t": "act", "ctx": "recur", "act": {"k": "bid", "ctl": "stop", "targets": ["me"]}})
             rng.shuffle(its)
+        if depth >= 2 and rng.random() < 0.1:
+            # an auxiliary y of one frame whose own first frame names z, and z named by another frame of the same
+            # outline as well: one entry would claim z twice, once through y
+            z = new_aux(1)
+            y = new_aux(1) if z is not None else None
+            if y is not None:
+                framers[y]["frames"][0]["items"].append({"t": "aux", "aux": z, "needs": []})
+                a, b = rng.sample(range(depth), 2)
+                frames[a]["items"].append({"t": "aux", "aux": y, "needs": []})
+                frames[b]["items"].append({"t": "aux", "aux": z, "needs": []})
         framers[m] = {"sched": "active" if rng.random() < 0.85 else "inactive",
                       "first": rng.randrange(n) if rng.random() < 0.3 else None, "frames": frames}
     if rng.random() < 0.5 and nmain >= 1:       # the clock (re)starts a main framer at some tick
@@ -1027,8 +1047,12 @@ def gen_auxes(rng, named_done=True):
         pool = []
         for j, f in enumerate(frames):
             for _ in range(rng.choice([0, 1, 1, 2])):
-                if pool and rng.random() < 0.06:
+                r = rng.random()
+                deep = [k for k in range(1 + nmain, len(framers)) if framers[k] is not None and k not in pool]
+                if pool and r < 0.06:
                     a = rng.choice(pool)                   # an original auxiliary named by a second frame
+                elif deep and r < 0.12:
+                    a = rng.choice(deep)                   # … or named by an auxiliary's frame (any level) already
                 else:
                     a = new_aux(0)
                 if a is not None and a not in mine.get(j, []):
